@@ -51,3 +51,19 @@ Definition sem8_lut (l : N) (a b c d : code) : code :=
 Theorem C02_gate_by_gate : forall c (stim : nat -> code), wf_netlist c -> comb_acyclic c ->
   solution sem8_lut Zero c stim (iexec sem8_lut (fun x => x) (build_ops c false) (init_env Zero c stim)).
 Proof. intros c stim. exact (KV.Proofs.SemProofs.build_ops_solution sem8_lut Zero c stim). Qed.
+
+(** End to end for the default options in the multi-valued domain (instance of the C01 end-to-end theorem): the flat memory
+    that SimOps.build lays out, after executing the scheduled ops with the documented operator composition per opcode, holds at
+    every observed slot the value of the line feeding that output / state element in the netlist's gate-by-gate solution. *)
+From KV Require Import Model.SimOpsCert.
+From KV Require Proofs.EndToEnd.
+Theorem C02_end_to_end_default : forall c caps cmin so (stim : nat -> code) (m0 : nat -> code) v,
+  wf_netlist c -> comb_acyclic c -> (0 < cmin)%N -> KV.Proofs.EndToEnd.gates_known c ->
+  build c caps cmin false false = Some so ->
+  (forall x l, In x (so_init so) -> so_loc so x = Some l -> m0 l = init_env Zero c stim x) ->
+  solution sem8_lut Zero c stim v ->
+  forall p, In p (so_final so) ->
+    mread Zero (so_loc so) (mexec sem8_lut Zero (so_loc so) (so_ops so) m0) p = v (so_alias c so p).
+Proof. intros c caps cmin so stim m0 v H1 H2 H3 H4 H5 H6 H7 p Hp.
+  exact (proj2 (proj2 (KV.Proofs.EndToEnd.end_to_end_solution sem8_lut Zero c caps cmin so stim m0 v H1 H2 H3 H4 H5 H6 H7 p Hp))). Qed.
+Print Assumptions C02_end_to_end_default.
